@@ -36,6 +36,21 @@ pub enum Op {
 pub struct Sys {
     pub slots: usize,
     pub max_fresh: u8,
+    /// number of buffers a freshly constructed memory of this configuration accepts before it reports
+    /// StorageOverflow: "the free list is full" means this many, for the whole life of the object
+    pub limit0: usize,
+}
+
+impl Sys {
+    pub fn new(slots: usize) -> Sys {
+        use dvb_gse_rust::gse_decap::SimpleGseMemory;
+        let mut m = SimpleGseMemory::new(slots, MAX_PDU, 0, 0);
+        let mut k = 0usize;
+        while k < 64 && m.provision_storage(vec![0u8; MAX_PDU].into_boxed_slice()).is_ok() {
+            k += 1;
+        }
+        Sys { slots, max_fresh: (slots + 4) as u8, limit0: k }
+    }
 }
 
 fn mk_ctx(id: u8, ver: u8) -> CtxS {
@@ -114,9 +129,9 @@ impl System for Sys {
                     Op::ProvisionHeld(i) => n.held_bufs.remove(*i),
                     _ => unreachable!(),
                 };
-                // 'full' is the implementation's own capacity (observed through the hook), not a constant of the harness
-                let cap = MemS::cap_of(&m);
-                let full = pre.free.len() >= cap;
+                // 'full' is the implementation's own limit, measured on a freshly constructed memory (not a constant of
+                // the harness, and not whatever a capacity field happens to report at this moment)
+                let full = pre.free.len() >= self.limit0;
                 let small = buf.len() < MAX_PDU;
                 let r = catch(|| m.provision_storage(buf.clone().into_boxed_slice()));
                 match r {
@@ -293,6 +308,42 @@ impl System for Sys {
         }
         let post = MemS::of(&m);
         let opk = format!("{:?}", op).split('(').next().unwrap().to_string();
+        // The limit of the free list is fixed at initialisation: whatever the history, the LIVE object (not a restored
+        // one) must accept exactly limit0 - free buffers more and refuse the next one. A restored snapshot cannot
+        // show a limit that drifted, the continuation on the live object does.
+        {
+            let room = self.limit0.saturating_sub(post.free.len());
+            let mut accepted = 0usize;
+            let mut refused_early: Option<String> = None;
+            for _ in 0..room {
+                match catch(|| m.provision_storage(vec![0xEEu8; MAX_PDU].into_boxed_slice())) {
+                    Ok(Ok(())) => accepted += 1,
+                    Ok(Err(e)) => {
+                        refused_early = Some(mem_err_kind(&e).0);
+                        break;
+                    }
+                    Err(p) => {
+                        refused_early = Some(format!("PANIC at {}", p.0));
+                        break;
+                    }
+                }
+            }
+            acc.calls += room as u64 + 1;
+            if let Some(k) = refused_early {
+                fail(&format!("limit|refuses-before-full|{}", opk), format!("after the call the free list holds {} buffers; provisioning refused with {} after {} more although a fresh memory accepts {}", post.free.len(), k, accepted, self.limit0));
+            } else if post.free.len() <= self.limit0 {
+                match catch(|| m.provision_storage(vec![0xEFu8; MAX_PDU].into_boxed_slice())) {
+                    Ok(Ok(())) => fail(&format!("limit|accepts-beyond-full|{}", opk), format!("after the call the free list was filled up to {} buffers (what a fresh memory accepts) and one more was still accepted", self.limit0)),
+                    Ok(Err(e)) => {
+                        let (k, hb) = mem_err_kind(&e);
+                        if k != "StorageOverflow" || hb.as_deref() != Some(&[0xEFu8; MAX_PDU][..]) {
+                            fail(&format!("limit|wrong-refusal|{}", opk), format!("a full free list answered {} / handed back {:?}", k, hb.map(|b| hex(&b))));
+                        }
+                    }
+                    Err(p) => fail(&format!("panic|{}", p.coarse()), format!("provision on a full free list panics at {}", p.0)),
+                }
+            }
+        }
         let alias = matches!(op, Op::TakeFrag(id) | Op::NewFrag(id) if matches!(&pre_cls[*id as usize % nslots], Some((c, _)) if c.frag_id != *id));
         let sfx = format!("{}{}", opk, if alias { "|aliasing-id" } else { "" });
         if sorted(post.free.clone()) != sorted(exp_free) {
@@ -322,13 +373,13 @@ impl System for Sys {
 
 pub fn run(tier: Tier) -> i32 {
     let rep = Report::new("C17", tier);
-    rep.set_rule("breadth-first search with state merging over the real SimpleGseMemory (snapshot/restore through the capacity-preserving hook, never Clone) for memories of 1..=3 slots (thorough 1..=4), configured PDU size 4, uniquely tagged buffers of sizes 3/4/5, ops provision(fresh|held) / new_pdu / new_frag(id) / take_frag(id) / save_frag(held context) over ids {0,1,n,n+1,255}; depth 7 (6 for 3 slots; thorough: 9 for 1 slot, 8 for 2 slots, 7 for 3 and 4 slots); per-transition refinement check against the bag-and-slots reference; distinct = (op, outcome)");
+    rep.set_rule("breadth-first search with state merging over the real SimpleGseMemory (snapshot/restore through the capacity-preserving hook, never Clone) for memories of 1..=3 slots (thorough 1..=4), configured PDU size 4, uniquely tagged buffers of sizes 3/4/5, ops provision(fresh|held) / new_pdu / new_frag(id) / take_frag(id) / save_frag(held context) over ids {0,1,n,n+1,255}; depth 7 (6 for 3 slots; thorough: 9 for 1 slot, 8 for 2 slots, 7 for 3 and 4 slots); per-transition refinement check against the bag-and-slots reference, plus after every transition a continuation on the live object: it must accept exactly as many more buffers as a fresh memory's limit leaves room for and refuse the next one; distinct = (op, outcome)");
     rep.assume("held items are kept sorted (the caller's bag is unordered); the free-list order is kept exactly");
     rep.assume("when the free list is full AND the buffer is too small either error is accepted (the statement does not order them)");
     let slot_counts: Vec<usize> = if tier.thorough() { vec![1, 2, 3, 4] } else { vec![1, 2, 3] };
     for n in slot_counts {
         RxS { last: None, mem: MemS::empty(n, MAX_PDU) }.check_fidelity();
-        let sys = Sys { slots: n, max_fresh: (n + 4) as u8 };
+        let sys = Sys::new(n);
         let depth = if tier.thorough() { if n == 1 { 9 } else if n == 2 { 8 } else { 7 } } else if n <= 2 { 7 } else { 6 };
         let ex = explore(&sys, &Limits { max_states: if tier.thorough() { 6_000_000 } else { 1_500_000 }, max_depth: depth }, &rep, &format!("memory-{}-slots", n));
         let k = ex.states.len();
